@@ -23,6 +23,7 @@ func init() {
 		Level: "exploration",
 		Rule: "byte strings: every single byte 0x01-0xFF alone and embedded between letters (0x00 too for strings), all strings of length<=3 (quick) / 4 (thorough) over {0,9,a,\",\\,5,C,space,0x80} (all-digit names, leading digits, \\5C, \\\\, escape look-alikes), digit strings around 2^63/2^64 and PRNG byte strings up to 64 bytes. Each string is placed through the Go API in each of 24 positions (global, function, alias, parameter, instruction, block, type, comdat, named-metadata and attachment names; attribute key/value/string; section, partition, gc; inline-asm text; module asm; metadata string; source_filename; syncscope; operand-bundle tag; DIFile filename; character array), batched many per module. The printed module must be accepted by the library's parser and read back to exactly those bytes (and as a name, not an ID), distinct strings must print as distinct tokens, and LLVM must accept the module and, after llvm-as|llvm-dis, show the same bytes (decoded with LLVM's \\xx rule). LLVM's own printing of each accepted module (its spelling of the same bytes: `\\\\` for a backslash, raw printable characters) is fed back to the library's parser and must yield the same strings. enc.Quote/Unquote and Escape/Unescape are driven directly through the export hook. " +
 			"The string set also holds names spelled like keywords of the grammar (the 29 specialized metadata node names and 29 other keywords such as type, global, define, label, void, i32, zeroinitializer, x, c, to). " +
+			"Further cases: the identifier API (NewLocalIdent/NewGlobalIdent, Name) on number-like names; a comdat named like the number of its unnamed global; small digit strings in every slot. " +
 			"non-trivial = a (position, string) pair whose string needs quoting or escaping, or is all digits; distinct by (position, string)",
 		Gen:           genC11,
 		MinNontrivial: 2000,
